@@ -3,6 +3,7 @@
 use std::collections::VecDeque;
 use std::sync::Arc;
 use vstd::std_specs::convert::*;
+use vstd::std_specs::iter::IteratorSpec;
 verus! {
 
 // ---------------------------------------------------------------------------
@@ -429,6 +430,14 @@ impl Message {
                     assert(h1@ =~= head0@.subrange(to_remove as int, head0@.len() as int));
                     assert(f0.subrange(to_remove as int, f0.len() as int) =~= h1@ + flat(rest));
                 }
+//@ end
+
+//@ item sim/elvis-core/src/message.rs :: impl Message / fn iter id=Message.iter mode=sig
+//@ contract
+    // ASSUMED (body not verified: VecDeque::iter().flat_map(closure) adapter chain):
+    // the iterator yields exactly the bytes the message denotes, front to back
+    requires self.wf(),
+    ensures r.obeys_prophetic_iter_laws(), r.remaining() == self@,
 //@ end
 
 //@ item sim/elvis-core/src/message.rs :: impl Message / fn len id=Message.len
